@@ -423,6 +423,11 @@ func (s *Server) DidSave(ctx context.Context, params *protocol.DidSaveTextDocume
 		Logger()
 
 	if isGohtFile, goURI := toGohtGoURI(params.TextDocument.URI); isGohtFile {
+		if params.Text != nil {
+			// the editor includes the template text: the Go language server must see the generated code
+			goSrc := s.goSrcs[string(params.TextDocument.URI)]
+			params.Text = &goSrc
+		}
 		params.TextDocument.URI = goURI
 	}
 	err := s.Server.DidSave(ctx, params)
